@@ -489,13 +489,18 @@ type requestSender struct {
 }
 
 func (r *requestSender) Send(writer io.Writer) error {
+	// The request's frame is not modified: it can be shared. A retried request may still be in the write queue of
+	// its previous connection, and the PREPARE frame of a re-prepare comes from the prepared cache, where every
+	// connection re-preparing the same statement finds it. The stream ID goes into a copy of the header.
 	switch frm := r.request.Frame().(type) {
 	case *frame.Frame:
-		frm.Header.StreamId = r.stream
-		return r.conn.codec.EncodeFrame(frm, writer)
+		hdr := *frm.Header
+		hdr.StreamId = r.stream
+		return r.conn.codec.EncodeFrame(&frame.Frame{Header: &hdr, Body: frm.Body}, writer)
 	case *frame.RawFrame:
-		frm.Header.StreamId = r.stream
-		return r.conn.codec.EncodeRawFrame(frm, writer)
+		hdr := *frm.Header
+		hdr.StreamId = r.stream
+		return r.conn.codec.EncodeRawFrame(&frame.RawFrame{Header: &hdr, Body: frm.Body}, writer)
 	default:
 		return errors.New("unhandled frame type")
 	}
